@@ -21,7 +21,7 @@ LEVEL = "model_checking"
 
 # (N, m, how the object is first constructed): "B1" = float lists of box B1; "int" = Python int lists [-1]*N, [1]*N
 CONFIGS = [(1, 10, "B1"), (2, 3, "B1"), (3, 2, "B1"), (5, 2, "B1"), (2, 3, "int"), (5, 12, "B1"), (1, 10, "int"),
-           (2, 10, "B1"), (4, 3, "B1")]
+           (2, 10, "B1"), (4, 3, "B1"), (2, 3, "ro"), (3, 2, "tuple")]
 
 
 def alphabet(N):
@@ -104,11 +104,19 @@ def show(op):
 
 def execute(N, m, seq, ops, init="B1"):
     """replay a call sequence on one fresh object, checking the oracle at every call; -> (messages, ev)"""
-    lo, up = box("B1", N) if init == "B1" else ([-1] * N, [1] * N)
+    lo, up = box("B1", N) if init in ("B1", "ro", "tuple") else ([-1] * N, [1] * N)
     if init == "B1":
         lo_arr, up_arr = np.array(lo, dtype=np.double), np.array(up, dtype=np.double)
         ev = Evolvent(lo_arr, up_arr, N, m)
         ev._harness_handed_over = [lo_arr, up_arr]      # the caller's own arrays
+    elif init == "ro":
+        # bound arrays that refuse writes (a caller protecting its configuration)
+        lo_arr, up_arr = np.array(lo, dtype=np.double), np.array(up, dtype=np.double)
+        lo_arr.setflags(write=False)
+        up_arr.setflags(write=False)
+        ev = Evolvent(lo_arr, up_arr, N, m)
+    elif init == "tuple":
+        ev = Evolvent(tuple(lo), tuple(up), N, m)
     else:
         ev = Evolvent(lo, up, N, m)
     cur = (np.array(lo, dtype=float), np.array(up, dtype=float))
@@ -236,10 +244,11 @@ def run(ctx):
     res = Result()
     th = ctx.thorough
     cfgs = CONFIGS if th else CONFIGS[:6]
-    out = pmap(bfs, cfgs)
+    bcfgs = cfgs if th else cfgs + CONFIGS[-2:]      # read-only / tuple bounds: state search in quick as well
+    out = pmap(bfs, bcfgs)
     states = trans = 0
     closed = {}
-    for (N, m, init), (ns, nt, viol, cl) in zip(cfgs, out):
+    for (N, m, init), (ns, nt, viol, cl) in zip(bcfgs, out):
         states += ns
         trans += nt
         closed[f"N={N},m={m},built from {init}"] = dict(states=ns, transitions=nt, closed=cl)
